@@ -143,8 +143,15 @@ def main():
         discharged += len(ok)
         by_unit[u['id']] = {'target': u['target'], 'obligations': len(rel), 'discharged': len(ok), 'seconds': round(rm.get('seconds', 0), 2),
                             'replaced_by_contract': u.get('replace', []), 'backend': 'cbmc 6.11 symex + cadical'}
+        any_failure = any(o['status'] == 'FAILURE' for o in obl)
         for o in rel:
             if o['status'] != 'SUCCESS':
+                if o['status'] != 'FAILURE':
+                    # the verifier left the obligation undecided (it stops refining once other obligations of the run have failed):
+                    # never a verdict of its own
+                    if not any_failure:
+                        infra.append('%s: obligation %s left %s by the verifier' % (u['id'], o['name'], o['status']))
+                    continue
                 if o['desc'].startswith('UNDECIDED:'):
                     # the code left the region the ghost model can reason about (e.g. consulted an unregistered element): not a verdict
                     infra.append('%s: %s' % (u['id'], o['desc']))
@@ -165,7 +172,7 @@ def main():
             if r is None or r['status'] != 'ok':
                 infra.append('%s: known-finding confirmation run %s undecided: %s' % (u['id'], f['id'], (r or {}).get('error')))
                 continue
-            bad = [o for o in r['obligations'] if o['status'] != 'SUCCESS' and relevant(o, prop, u)]
+            bad = [o for o in r['obligations'] if o['status'] == 'FAILURE' and relevant(o, prop, u)]
             if bad and prop in f['properties']:
                 kf_hits.setdefault(f['id'], (f, []))[1].append(u['id'])
     for fid, (f, us_) in sorted(kf_hits.items()):
